@@ -1,5 +1,116 @@
-(* placeholder while the correspondence is being established *)
-From Cfg Require Import Model.Timers.
-From Coq Require Import NArith.
-Example C36_placeholder : closed (init (mkCfg 20%N 10%N 30%N 20%N 10%N 10%N false RNone)) = false.
-Proof. reflexivity. Qed.
+(* C36 Liveness timers close exactly the connections they should.
+   Property theorems only; proofs in Proofs/Timers.v, model Model/Timers.v (the code after
+   fixes/C36-refresh-no-expiry-keeps-timers.patch), specification predicate Model/TimersSpec.v. *)
+From Coq Require Import List NArith Bool.
+From Cfg Require Import Model.Timers Model.TimersSpec Proofs.Timers.
+Import ListNotations.
+Open Scope N_scope.
+
+(* Single-timer multiplexing never starves a due check: for ALL configurations and ALL
+   sequences of time steps, timer firings (only when due), connects, pongs, client refresh /
+   sub refresh commands and server-side Refresh calls, an open connection always has its one
+   timer armed not later than every pending deadline (expiry, presence tick, ping, pong check). *)
+Theorem C36_no_starvation :
+  forall g ls s os, exec g (init g) ls = Some (s, os) -> cover_ok (snap_of s) = true.
+Proof. exact no_starvation. Qed.
+Print Assumptions C36_no_starvation.
+
+(* The code before the fix violates it: Refresh() without expiry on an expiring connection,
+   then the old expiry check fires and nothing is armed any more (no pings, no pong checks). *)
+Theorem C36_prefix_code_starves_refuted :
+  exists g ls s os,
+    exec_prefix g (init g) ls = Some (s, os) /\ closed s = false /\ cover_ok (snap_of s) = false.
+Proof. exact prefix_starves. Qed.
+Print Assumptions C36_prefix_code_starves_refuted.
+
+(* A timer never fires before it is due. *)
+Theorem C36_not_before_due :
+  forall g s k due, armed s = Some (k, due) -> now s < due -> fire g s = None.
+Proof. exact fire_not_before. Qed.
+Print Assumptions C36_not_before_due.
+
+(* No pong: when the pong check fires, the connection is closed with no-pong (3012) iff no pong
+   was recorded after the last ping; otherwise it stays open and the check is cleared. *)
+Theorem C36_pong_check :
+  forall g s due,
+    closed s = false -> armed s = Some (OpPong, due) -> due <= now s ->
+    (lastSeen s < lastPing s ->
+       exists s', fire g s = Some (s', [OClose 3012]) /\ closed s' = true) /\
+    (lastPing s <= lastSeen s ->
+       exists s', fire g s = Some (s', []) /\ closed s' = false /\ nPong s' = 0).
+Proof. exact pong_check. Qed.
+Print Assumptions C36_pong_check.
+
+(* ... and over ALL runs "recorded after the last ping" means exactly "a pong frame was
+   accepted since the last ping" (ponged): an answered ping never leads to no-pong, an
+   unanswered one always does. *)
+Theorem C36_pong_bookkeeping :
+  forall g ls s os, exec g (init g) ls = Some (s, os) ->
+    (ponged s = true -> lastPing s <= lastSeen s) /\
+    (ponged s = false -> 0 < lastPing s -> lastSeen s < lastPing s).
+Proof. intros g ls s os H. destruct (exec_K g ls s os H) as [_ [_ [A B]]]. auto. Qed.
+Print Assumptions C36_pong_bookkeeping.
+
+(* Stale: the stale check closes an unauthenticated connection with 3502. *)
+Theorem C36_stale_check :
+  forall g s due,
+    closed s = false -> armed s = Some (OpStale, due) -> due <= now s -> auth s = false ->
+    exists s', fire g s = Some (s', [OClose 3502]) /\ closed s' = true.
+Proof. exact stale_check. Qed.
+Print Assumptions C36_stale_check.
+
+(* Expiry: when the expiry check fires past the expiry and nobody extends it (client-side
+   refresh mode, or no RefreshHandler), the connection is closed with expired (3005) ... *)
+Theorem C36_expire_check :
+  forall g s due,
+    closed s = false -> armed s = Some (OpExpire, due) -> due <= now s ->
+    0 < exp s -> exp s <= now s -> (csr s = true \/ g_refresh g = RNone) ->
+    exists s', fire g s = Some (s', [OClose 3005]) /\ closed s' = true.
+Proof. exact expire_check. Qed.
+Print Assumptions C36_expire_check.
+
+(* ... over ALL runs the expiry check is never armed before the CURRENT expiry, so a
+   connection refreshed in time is not closed at the old one ... *)
+Theorem C36_expire_not_early :
+  forall g ls s os due,
+    exec g (init g) ls = Some (s, os) -> closed s = false ->
+    armed s = Some (OpExpire, due) -> 0 < exp s /\ exp s <= due.
+Proof. exact expire_not_early. Qed.
+Print Assumptions C36_expire_not_early.
+
+(* ... and an accepted client refresh moves it to the new expiry plus the grace delay. *)
+Theorem C36_refresh_moves_deadline :
+  forall g s e,
+    closed s = false -> csr s = true -> now s < e ->
+    let s' := fst (refresh_cmd g s e) in
+    exp s' = e /\ nExpire s' = e + g_exp_delay g /\ closed s' = false.
+Proof. exact refresh_moves_deadline. Qed.
+Print Assumptions C36_refresh_moves_deadline.
+
+(* Subscription expiry: the presence tick unsubscribes (2501) exactly the client-side
+   subscriptions whose expiry plus grace delay has passed. *)
+Theorem C36_subscription_expiry :
+  forall g l s,
+    closed s = false ->
+    (forall b, In b l -> sub_expired g s b = true -> sb_server b = false) ->
+    snd (tick_subs g s l) = map (fun b => OUnsub (sb_name b) 2501) (filter (sub_expired g s) l) /\
+    closed (fst (tick_subs g s l)) = false.
+Proof. exact tick_subs_spec. Qed.
+Print Assumptions C36_subscription_expiry.
+
+(* Non-vacuity: a run with ping, pong, refresh and an expiry close. *)
+Definition ex_cfg := mkCfg 20 10 23 20 10 10 false RNone.
+Example C36_ex_run :
+  match exec ex_cfg (init ex_cfg)
+          [LAdvance 5; LConnect 20 true 13 10; LAdvance 10; LFire; LPong; LRefreshCmd 60;
+           LAdvance 60; LFire; LFire; LFire; LFire] with
+  | Some (s, os) => (closed s, concat os)
+  | None => (false, [])
+  end = (true, [OPing; OReply 0; OPing; OClose 3005]).
+Proof. vm_compute. reflexivity. Qed.
+Example C36_ex_expired :
+  match exec ex_cfg (init ex_cfg) [LAdvance 5; LConnect 20 true 13 10; LAdvance 30; LFire; LFire; LFire] with
+  | Some (s, os) => (closed s, concat os)
+  | None => (false, [])
+  end = (true, [OPing; OClose 3005]).
+Proof. vm_compute. reflexivity. Qed.
